@@ -477,13 +477,13 @@ Qed.
 
 (** ** operations *)
 Definition evict_ids (ops : list sop) : list positive :=
-  flat_map (fun o => match o with SEvict t _ _ _ => [t] | _ => [] end) ops.
+  flat_map (fun o => match o with SEvict t _ _ _ _ => [t] | _ => [] end) ops.
 Definition is_valid_evict (t : positive) (o : sop) : bool :=
-  match o with SEvict t' _ _ true => Pos.eqb t' t | _ => false end.
+  match o with SEvict t' _ _ _ true => Pos.eqb t' t | _ => false end.
 Definition nvalid (t : positive) (ops : list sop) : nat := List.length (filter (is_valid_evict t) ops).
 
 Lemma evict_ids_cons : forall o r,
-  evict_ids (o :: r) = (match o with SEvict t _ _ _ => [t] | _ => [] end) ++ evict_ids r.
+  evict_ids (o :: r) = (match o with SEvict t _ _ _ _ => [t] | _ => [] end) ++ evict_ids r.
 Proof. reflexivity. Qed.
 Lemma evict_ids_app : forall a b, evict_ids (a ++ b) = evict_ids a ++ evict_ids b.
 Proof. intros. unfold evict_ids. now rewrite flat_map_app. Qed.
@@ -497,10 +497,11 @@ Lemma unevict_first_props : forall t ops ops' prev pg,
   /\ nvalid t ops = S (nvalid t ops')
   /\ (forall t', t' <> t -> nvalid t' ops' = nvalid t' ops)
   /\ In t (evict_ids ops)
-  /\ (forall t' p g, In (SEvict t' p g true) ops' -> In (SEvict t' p g true) ops).
+  /\ (forall t' p g pn, In (SEvict t' p g pn true) ops' -> In (SEvict t' p g pn true) ops)
+  /\ (forall t' n gs, In (SAlloc t' n gs) ops <-> In (SAlloc t' n gs) ops').
 Proof.
   intros t. induction ops as [|o r IH]; intros ops' prev pg H; cbn in H; [discriminate|].
-  destruct o as [t0 p0 g0 v0 | t0 n0 gs0].
+  destruct o as [t0 p0 g0 pn0 v0 | t0 n0 gs0 | t0 n0 gs0].
   - destruct v0.
     + destruct (Pos.eqb t0 t) eqn:E.
       * inversion H; subst. apply Pos.eqb_eq in E. subst t0. repeat split.
@@ -510,9 +511,11 @@ Proof.
         -- intros t' Hne. unfold nvalid. cbn.
            destruct (Pos.eqb t t') eqn:E'; [apply Pos.eqb_eq in E'; congruence | reflexivity].
         -- cbn. now left.
-        -- intros t' p g [Hx|Hx]; [discriminate | now right].
+        -- intros t' p g pn [Hx|Hx]; [discriminate | now right].
+        -- intros [Hx|Hx]; [discriminate | now right].
+        -- intros [Hx|Hx]; [discriminate | now right].
       * destruct (unevict_first t r) as [[[r' p] g]|] eqn:Er; [|discriminate]. inversion H; subst.
-        destruct (IH _ _ _ eq_refl) as (H1 & H2 & H3 & H4 & H5 & H6). repeat split.
+        destruct (IH _ _ _ eq_refl) as (H1 & H2 & H3 & H4 & H5 & H6 & H7). repeat split.
         -- rewrite !evict_ids_cons. now rewrite H1.
         -- intros [Hx|Hx]; [discriminate | right; now apply H2].
         -- intros [Hx|Hx]; [discriminate | right; now apply H2].
@@ -520,38 +523,73 @@ Proof.
         -- intros t' Hne. unfold nvalid in *. cbn. specialize (H4 t' Hne).
            destruct (Pos.eqb t0 t'); cbn; [now rewrite H4 | exact H4].
         -- cbn. now right.
-        -- intros t' p' g' [Hx|Hx]; [left; exact Hx | right; eapply H6; eauto].
+        -- intros t' p' g' pn' [Hx|Hx]; [left; exact Hx | right; eapply H6; eauto].
+        -- intros [Hx|Hx]; [discriminate | right; now apply H7].
+        -- intros [Hx|Hx]; [discriminate | right; now apply H7].
     + destruct (unevict_first t r) as [[[r' p] g]|] eqn:Er; [|discriminate]. inversion H; subst.
-      destruct (IH _ _ _ eq_refl) as (H1 & H2 & H3 & H4 & H5 & H6). repeat split.
+      destruct (IH _ _ _ eq_refl) as (H1 & H2 & H3 & H4 & H5 & H6 & H7). repeat split.
       * rewrite !evict_ids_cons. now rewrite H1.
       * intros [Hx|Hx]; [discriminate | right; now apply H2].
       * intros [Hx|Hx]; [discriminate | right; now apply H2].
       * unfold nvalid in *. cbn. exact H3.
       * intros t' Hne. unfold nvalid in *. cbn. exact (H4 t' Hne).
       * cbn. now right.
-      * intros t' p' g' [Hx|Hx]; [discriminate | right; eapply H6; eauto].
+      * intros t' p' g' pn' [Hx|Hx]; [discriminate | right; eapply H6; eauto].
+      * intros [Hx|Hx]; [discriminate | right; now apply H7].
+      * intros [Hx|Hx]; [discriminate | right; now apply H7].
   - destruct (unevict_first t r) as [[[r' p] g]|] eqn:Er; [|discriminate]. inversion H; subst.
-    destruct (IH _ _ _ eq_refl) as (H1 & H2 & H3 & H4 & H5 & H6). repeat split.
+    destruct (IH _ _ _ eq_refl) as (H1 & H2 & H3 & H4 & H5 & H6 & H7). repeat split.
     + rewrite !evict_ids_cons. now rewrite H1.
     + intros [Hx|Hx]; [now left | right; now apply H2].
     + intros [Hx|Hx]; [now left | right; now apply H2].
     + unfold nvalid in *. cbn. exact H3.
     + intros t' Hne. unfold nvalid in *. cbn. exact (H4 t' Hne).
     + cbn. exact H5.
-    + intros t' p' g' [Hx|Hx]; [discriminate | right; eapply H6; eauto].
+    + intros t' p' g' pn' [Hx|Hx]; [discriminate | right; eapply H6; eauto].
+    + intros [Hx|Hx]; [discriminate | right; now apply H7].
+    + intros [Hx|Hx]; [discriminate | right; now apply H7].
+  - destruct (unevict_first t r) as [[[r' p] g]|] eqn:Er; [|discriminate]. inversion H; subst.
+    destruct (IH _ _ _ eq_refl) as (H1 & H2 & H3 & H4 & H5 & H6 & H7). repeat split.
+    + rewrite !evict_ids_cons. now rewrite H1.
+    + intros [Hx|Hx]; [discriminate | right; now apply H2].
+    + intros [Hx|Hx]; [discriminate | right; now apply H2].
+    + unfold nvalid in *. cbn. exact H3.
+    + intros t' Hne. unfold nvalid in *. cbn. exact (H4 t' Hne).
+    + cbn. exact H5.
+    + intros t' p' g' pn' [Hx|Hx]; [discriminate | right; eapply H6; eauto].
+    + intros [Hx|Hx]; [now left | right; now apply H7].
+    + intros [Hx|Hx]; [now left | right; now apply H7].
 Qed.
 
 (** ** the two statement primitives *)
-Lemma stmt_evict_inv : forall s ops t s' ops',
-  stmt_evict s ops t = Some (s', ops') ->
-  exists tk, get_task (ss_tasks s) t = Some tk /\ ss_jobs s' = ss_jobs s /\ ss_entries s' = ss_entries s
-             /\ ss_tasks s' = upd_first t (set_status Releasing) (ss_tasks s)
-             /\ ops' = ops ++ [SEvict t (vt_status tk) (vt_groups tk) true].
+Lemma st_eqb_eq : forall a b, status_eqb a b = true <-> a = b.
+Proof. intros a b. destruct a, b; cbn; split; intro H; try reflexivity; try discriminate. Qed.
+
+(** Statement.Evict: either the pod was seen Releasing (not a stale copy: nothing
+    happens), or it becomes Releasing and one valid evict operation is appended *)
+Lemma stmt_evict_gen_inv : forall stale s ops t s' ops',
+  stmt_evict_gen stale s ops t = Some (s', ops') ->
+  exists tk, get_task (ss_tasks s) t = Some tk /\
+    ((~ In t stale /\ vt_status tk = Releasing /\ s' = s /\ ops' = ops)
+     \/ (exists pn, (~ In t stale -> vt_status tk <> Releasing)
+           /\ ss_jobs s' = ss_jobs s /\ ss_entries s' = ss_entries s
+           /\ ss_tasks s' = upd_first t (set_status Releasing) (ss_tasks s)
+           /\ ops' = ops ++ [SEvict t (vt_status tk) (vt_groups tk) pn true])).
 Proof.
-  intros s ops t s' ops' H. unfold stmt_evict in H.
+  intros stale s ops t s' ops' H. unfold stmt_evict_gen in H.
   destruct (get_task (ss_tasks s) t) as [tk|] eqn:Et; [|discriminate].
   destruct (find_job (ss_jobs s) (vt_job tk)); [|discriminate].
-  destruct (vt_node tk); [|discriminate]. inversion H; subst. exists tk. cbn. auto.
+  destruct (vt_node tk) as [pn|]; [|discriminate]. exists tk. split; [reflexivity|].
+  assert (Hm : forall x l, mem_pos x l = true <-> In x l).
+  { intros x l. unfold mem_pos. rewrite existsb_exists. split.
+    - intros (y & Hy & E). apply Pos.eqb_eq in E. now subst.
+    - intros Hx. exists x. split; auto. apply Pos.eqb_refl. }
+  destruct (negb (mem_pos t stale) && status_eqb (vt_status tk) Releasing) eqn:Eb.
+  - apply andb_true_iff in Eb. destruct Eb as [Er Es]. apply st_eqb_eq in Es. apply negb_true_iff in Er.
+    inversion H; subst. left. repeat split; auto. intros Hin. apply Hm in Hin. congruence.
+  - inversion H; subst. right. exists pn. cbn. repeat split; auto.
+    intros Hns Hs. apply st_eqb_eq in Hs. rewrite Hs in Eb.
+    destruct (mem_pos t stale) eqn:Em; [apply Hm in Em; contradiction | cbn in Eb; discriminate].
 Qed.
 
 Definition good_move (s : sstate) (t n : positive) (gs : list positive) : Prop :=
@@ -592,28 +630,171 @@ Proof.
     + eapply Hs; eauto. now left.
 Qed.
 
+(** ** Commit *)
+Definition no_alloc (ops : list sop) : Prop := forall t n gs, ~ In (SAlloc t n gs) ops.
+
+Lemma no_alloc_cons : forall o r, no_alloc (o :: r) -> no_alloc r.
+Proof. intros o r H t n gs Hin. apply (H t n gs). now right. Qed.
+
+(** without failures (and without allocate operations) a commit emits one accepted
+    call per valid operation and leaves the session as the statement built it *)
+Lemma commit_run_no_faults : forall c a pre ops ke kb s,
+  no_alloc ops -> commit_run c no_faults a pre ke kb s ops = (commit_ops a pre ops, s).
+Proof.
+  intros c a pre. induction ops as [|o r IH]; intros ke kb s Hna; [reflexivity|].
+  pose proof (no_alloc_cons _ _ Hna) as Hr.
+  destruct o as [t p g pn [|] | t n gs | t n gs]; cbn [commit_run commit_ops flat_map no_faults f_evict f_bind].
+  - rewrite (IH _ _ _ Hr). reflexivity.
+  - apply IH; auto.
+  - rewrite (IH _ _ _ Hr). reflexivity.
+  - exfalso. apply (Hna t n gs). now left.
+Qed.
+
+(** with the loop carrying on and no allocate operation, every oracle leaves the
+    nominations alone and turns each valid evict operation into exactly one
+    Evict call, accepted or refused *)
+Lemma commit_run_pipes : forall f a pre ops ke kb s t n gs,
+  no_alloc ops ->
+  (In (VPipe t n gs) (fst (commit_run true f a pre ke kb s ops)) <-> In (SPipe t n gs) ops).
+Proof.
+  intros f a pre. induction ops as [|o r IH]; intros ke kb s t n gs Hna; [cbn; tauto|].
+  pose proof (no_alloc_cons _ _ Hna) as Hr.
+  destruct o as [t0 p0 g0 pn0 [|] | t0 n0 gs0 | t0 n0 gs0]; cbn [commit_run].
+  - destruct (f_evict f ke).
+    + destruct (commit_run true f a pre (S ke) kb (unevict_state s t0 pn0) r) as [cs s2] eqn:E. cbn [fst].
+      specialize (IH (S ke) kb (unevict_state s t0 pn0) t n gs Hr). rewrite E in IH. cbn [fst] in IH.
+      split.
+      * intros [Hx|Hx]; [discriminate | right; now apply IH].
+      * intros [Hx|Hx]; [discriminate | right; now apply IH].
+    + destruct (commit_run true f a pre (S ke) kb s r) as [cs s2] eqn:E. cbn [fst].
+      specialize (IH (S ke) kb s t n gs Hr). rewrite E in IH. cbn [fst] in IH.
+      split.
+      * intros [Hx|Hx]; [discriminate | right; now apply IH].
+      * intros [Hx|Hx]; [discriminate | right; now apply IH].
+  - rewrite (IH ke kb s t n gs Hr). split; [now right | intros [Hx|Hx]; [discriminate | exact Hx]].
+  - destruct (commit_run true f a pre ke kb s r) as [cs s2] eqn:E. cbn [fst].
+    specialize (IH ke kb s t n gs Hr). rewrite E in IH. cbn [fst] in IH.
+    split.
+    + intros [Hx|Hx]; [left; congruence | right; now apply IH].
+    + intros [Hx|Hx]; [left; congruence | right; now apply IH].
+  - exfalso. apply (Hna t0 n0 gs0). now left.
+Qed.
+
+Definition is_evict_call (c : vcall) : Prop :=
+  match c with VEvict _ _ _ | VEvictFailed _ _ _ => True | _ => False end.
+Definition evict_call_of (c : vcall) (t : positive) (a : vaction) (p : positive) : Prop :=
+  c = VEvict t a p \/ c = VEvictFailed t a p.
+
+Lemma commit_run_evicts : forall c f a pre ops ke kb s t a' p' x,
+  evict_call_of x t a' p' -> In x (fst (commit_run c f a pre ke kb s ops)) ->
+  a' = a /\ p' = pre /\ exists prev pg pn, In (SEvict t prev pg pn true) ops.
+Proof.
+  intros c f a pre. induction ops as [|o r IH]; intros ke kb s t a' p' x Hx Hin; [destruct Hin|].
+  destruct o as [t0 p0 g0 pn0 [|] | t0 n0 gs0 | t0 n0 gs0]; cbn [commit_run] in Hin.
+  - destruct (f_evict f ke).
+    + destruct c.
+      * destruct (commit_run true f a pre (S ke) kb (unevict_state s t0 pn0) r) as [cs s2] eqn:E. cbn [fst] in Hin.
+        destruct Hin as [Hh|Hin].
+        -- destruct Hx as [->| ->]; inversion Hh; subst. split; auto. split; auto. exists p0, g0, pn0. now left.
+        -- specialize (IH (S ke) kb (unevict_state s t0 pn0) t a' p' x Hx). rewrite E in IH.
+           destruct (IH Hin) as (? & ? & pr & pg & pn & Hi). repeat split; auto. exists pr, pg, pn. now right.
+      * cbn [fst] in Hin. destruct Hin as [Hh|[]].
+        destruct Hx as [->| ->]; inversion Hh; subst. split; auto. split; auto. exists p0, g0, pn0. now left.
+    + destruct (commit_run c f a pre (S ke) kb s r) as [cs s2] eqn:E. cbn [fst] in Hin.
+      destruct Hin as [Hh|Hin].
+      * destruct Hx as [->| ->]; inversion Hh; subst. split; auto. split; auto. exists p0, g0, pn0. now left.
+      * specialize (IH (S ke) kb s t a' p' x Hx). rewrite E in IH.
+        destruct (IH Hin) as (? & ? & pr & pg & pn & Hi). repeat split; auto. exists pr, pg, pn. now right.
+  - destruct (IH ke kb s t a' p' x Hx Hin) as (? & ? & pr & pg & pn & Hi). repeat split; auto. exists pr, pg, pn. now right.
+  - destruct (commit_run c f a pre ke kb s r) as [cs s2] eqn:E. cbn [fst] in Hin.
+    destruct Hin as [Hh|Hin]; [destruct Hx as [->| ->]; discriminate|].
+    specialize (IH ke kb s t a' p' x Hx). rewrite E in IH.
+    destruct (IH Hin) as (? & ? & pr & pg & pn & Hi). repeat split; auto. exists pr, pg, pn. now right.
+  - destruct (f_bind f kb).
+    + cbn [fst] in Hin. destruct Hin as [Hh|[]]. destruct Hx as [->| ->]; discriminate.
+    + destruct (commit_run c f a pre ke (S kb) (bound_state s t0) r) as [cs s2] eqn:E. cbn [fst] in Hin.
+      destruct Hin as [Hh|Hin]; [destruct Hx as [->| ->]; discriminate|].
+      specialize (IH ke (S kb) (bound_state s t0) t a' p' x Hx). rewrite E in IH.
+      destruct (IH Hin) as (? & ? & pr & pg & pn & Hi). repeat split; auto. exists pr, pg, pn. now right.
+Qed.
+
+(** no allocate operation: no Bind call, accepted or refused *)
+Lemma commit_run_no_bind : forall c f a pre ops ke kb s x,
+  no_alloc ops -> In x (fst (commit_run c f a pre ke kb s ops)) ->
+  match x with VBind _ _ _ | VBindFailed _ _ _ => False | _ => True end.
+Proof.
+  intros c f a pre. induction ops as [|o r IH]; intros ke kb s x Hna Hin; [destruct Hin|].
+  pose proof (no_alloc_cons _ _ Hna) as Hr.
+  destruct o as [t0 p0 g0 pn0 [|] | t0 n0 gs0 | t0 n0 gs0]; cbn [commit_run] in Hin.
+  - destruct (f_evict f ke).
+    + destruct c.
+      * destruct (commit_run true f a pre (S ke) kb (unevict_state s t0 pn0) r) as [cs s2] eqn:E. cbn [fst] in Hin.
+        destruct Hin as [<-|Hin]; [exact I|].
+        specialize (IH (S ke) kb (unevict_state s t0 pn0) x Hr). rewrite E in IH. cbn [fst] in IH. exact (IH Hin).
+      * cbn [fst] in Hin. destruct Hin as [<-|[]]. exact I.
+    + destruct (commit_run c f a pre (S ke) kb s r) as [cs s2] eqn:E. cbn [fst] in Hin.
+      destruct Hin as [<-|Hin]; [exact I|].
+      specialize (IH (S ke) kb s x Hr). rewrite E in IH. cbn [fst] in IH. exact (IH Hin).
+  - exact (IH ke kb s x Hr Hin).
+  - destruct (commit_run c f a pre ke kb s r) as [cs s2] eqn:E. cbn [fst] in Hin.
+    destruct Hin as [<-|Hin]; [exact I|].
+    specialize (IH ke kb s x Hr). rewrite E in IH. cbn [fst] in IH. exact (IH Hin).
+  - exfalso. apply (Hna t0 n0 gs0). now left.
+Qed.
+
+(** a refused bind ends the commit: the operations behind it are dropped *)
+Lemma commit_run_failed_bind : forall c f a pre kb ke s t n gs r,
+  f_bind f kb = true ->
+  commit_run c f a pre ke kb s (SAlloc t n gs :: r) = ([VBindFailed t n gs], unallocate_state s t n).
+Proof. intros c f a pre kb ke s t n gs r H. cbn [commit_run]. now rewrite H. Qed.
+
+(** jobs and the (id, job, pod set) frame survive a commit *)
+Lemma commit_run_frame : forall c f a pre ops ke kb s,
+  ss_jobs (snd (commit_run c f a pre ke kb s ops)) = ss_jobs s
+  /\ frame (ss_tasks (snd (commit_run c f a pre ke kb s ops))) = frame (ss_tasks s).
+Proof.
+  intros c f a pre. induction ops as [|o r IH]; intros ke kb s; [cbn; auto|].
+  assert (Hset : pres set_unallocated) by (intros x; cbn; auto).
+  destruct o as [t0 p0 g0 pn0 [|] | t0 n0 gs0 | t0 n0 gs0]; cbn [commit_run].
+  - destruct (f_evict f ke).
+    + destruct c.
+      * specialize (IH (S ke) kb (unevict_state s t0 pn0)).
+        destruct (commit_run true f a pre (S ke) kb (unevict_state s t0 pn0) r) as [cs s2]. cbn [snd] in *.
+        destruct IH as [Hj Hf]. rewrite Hj, Hf. unfold unevict_state. destruct (get_task (ss_tasks s) t0); auto.
+      * cbn [snd]. unfold unevict_state. destruct (get_task (ss_tasks s) t0); auto.
+    + specialize (IH (S ke) kb s). destruct (commit_run c f a pre (S ke) kb s r) as [cs s2]. exact IH.
+  - apply IH.
+  - specialize (IH ke kb s). destruct (commit_run c f a pre ke kb s r) as [cs s2]. exact IH.
+  - destruct (f_bind f kb).
+    + cbn. split; auto. apply frame_upd_first; auto.
+    + specialize (IH ke (S kb) (bound_state s t0)).
+      destruct (commit_run c f a pre ke (S kb) (bound_state s t0) r) as [cs s2]. cbn [snd] in *.
+      destruct IH as [Hj Hf]. split; [exact Hj|]. rewrite Hf. cbn. apply frame_upd_first; auto.
+Qed.
+
 (** ** what a commit implies *)
-Lemma run_scenario_inv : forall env a s pre sc sim calls s',
-  run_scenario env a s pre sc sim = Committed calls s' ->
-  exists pj s1 ops1 ops2,
+Lemma run_scenario_gen_inv : forall stale c f env a s pre sc sim calls s',
+  run_scenario_gen stale c f env a s pre sc sim = Committed calls s' ->
+  exists pj s1 ops1 s2 ops2,
     find_job (ss_jobs s) pre = Some pj
     /\ forallb (fun t => mem_pos t (sc_victims sc)) (sc_chosen sc) = true
     /\ filter_all env s a (sc_seen sc) pj (sc_victims sc) = V true
-    /\ evict_all s [] (sc_evicted sc) = Some (s1, ops1)
-    /\ pipeline_all s1 ops1 sim = Some (s', ops2)
-    /\ validate env s' a pj sc = V true
-    /\ job_solved s s' pj = true
-    /\ calls = commit_ops a pre ops2.
+    /\ evict_all_gen stale s [] (sc_evicted sc) = Some (s1, ops1)
+    /\ pipeline_all s1 ops1 sim = Some (s2, ops2)
+    /\ validate env s2 a pj sc = V true
+    /\ job_solved s s2 pj = true
+    /\ commit_run c f a pre 0 0 s2 ops2 = (calls, s').
 Proof.
-  intros env a s pre sc sim calls s' H. unfold run_scenario in H.
+  intros stale c f env a s pre sc sim calls s' H. unfold run_scenario_gen in H.
   destruct (find_job (ss_jobs s) pre) as [pj|]; [|discriminate].
   destruct (forallb (fun t => mem_pos t (sc_victims sc)) (sc_chosen sc)) eqn:Eg; cbn [negb] in H; [|discriminate].
   destruct (filter_all env s a (sc_seen sc) pj (sc_victims sc)) as [[|]| |] eqn:Ef; try discriminate.
-  destruct (evict_all s [] (sc_evicted sc)) as [[s1 ops1]|] eqn:Ee; [|discriminate].
+  destruct (evict_all_gen stale s [] (sc_evicted sc)) as [[s1 ops1]|] eqn:Ee; [|discriminate].
   destruct (pipeline_all s1 ops1 sim) as [[s2 ops2]|] eqn:Ep; [|discriminate].
   destruct (validate env s2 a pj sc) as [[|]| |] eqn:Ev; try discriminate.
   destruct (job_solved s s2 pj) eqn:Ej; [|discriminate].
-  inversion H; subst. exists pj, s1, ops1, ops2. repeat split; auto.
+  destruct (commit_run c f a pre 0 0 s2 ops2) as [cs s3] eqn:Ec.
+  inversion H; subst. exists pj, s1, ops1, s2, ops2. repeat split; auto.
 Qed.
 
 Lemma mem_pos_in : forall x l, mem_pos x l = true <-> In x l.
@@ -692,12 +873,13 @@ Proof.
 Qed.
 
 Lemma commit_ops_evict : forall a pre ops t a' p',
-  In (VEvict t a' p') (commit_ops a pre ops) -> a' = a /\ p' = pre /\ exists prev pg, In (SEvict t prev pg true) ops.
+  In (VEvict t a' p') (commit_ops a pre ops) -> a' = a /\ p' = pre /\ exists prev pg pn, In (SEvict t prev pg pn true) ops.
 Proof.
   intros a pre ops t a' p' H. unfold commit_ops in H. apply in_flat_map in H. destruct H as (o & Ho & Hin).
-  destruct o as [t0 p0 g0 [|]|]; cbn in Hin.
-  - destruct Hin as [E|[]]. inversion E; subst. eauto.
+  destruct o as [t0 p0 g0 pn0 [|]| |]; cbn in Hin.
+  - destruct Hin as [E|[]]. inversion E; subst. split; [reflexivity|]. split; [reflexivity|]. exists p0, g0, pn0. exact Ho.
   - destruct Hin.
+  - destruct Hin as [E|[]]. discriminate.
   - destruct Hin as [E|[]]. discriminate.
 Qed.
 
@@ -705,39 +887,48 @@ Lemma commit_ops_pipe : forall a pre ops t n gs,
   In (SPipe t n gs) ops -> In (VPipe t n gs) (commit_ops a pre ops).
 Proof. intros. unfold commit_ops. apply in_flat_map. eexists; split; eauto. now left. Qed.
 
-Lemma in_evict_ids : forall ops t p g v, In (SEvict t p g v) ops -> In t (evict_ids ops).
+Lemma in_evict_ids : forall ops t p g pn v, In (SEvict t p g pn v) ops -> In t (evict_ids ops).
 Proof. intros. unfold evict_ids. apply in_flat_map. eexists; split; eauto. now left. Qed.
 
 (** ** phase invariants: jobs and the (id, job, pod set) frame never change; evict operations are for the scenario's evicted pods *)
 Definition base_inv (s : sstate) (evl : list positive) (c : sstate * list sop) : Prop :=
   ss_jobs (fst c) = ss_jobs s /\ frame (ss_tasks (fst c)) = frame (ss_tasks s)
-  /\ forall t, In t (evict_ids (snd c)) -> In t evl.
+  /\ (forall t, In t (evict_ids (snd c)) -> In t evl)
+  /\ no_alloc (snd c).
 
-Lemma evict_all_base : forall s evl s1 ops1,
-  evict_all s [] evl = Some (s1, ops1) -> base_inv s evl (s1, ops1).
+Lemma evict_all_base : forall rep s evl s1 ops1,
+  evict_all_gen rep s [] evl = Some (s1, ops1) -> base_inv s evl (s1, ops1).
 Proof.
-  intros s evl s1 ops1 H. unfold evict_all in H.
+  intros rep s evl s1 ops1 H. unfold evict_all_gen in H.
   eapply (fold_opt_inv _ _ _ (base_inv s evl)) in H; eauto.
-  - intros x [c1 o1] [c2 o2] Hx (Hj & Hf & Hi) Hs. cbn [fst snd] in *.
-    apply stmt_evict_inv in Hs. destruct Hs as (tk & Ht & Hj' & He' & Ht' & Ho').
+  - intros x [c1 o1] [c2 o2] Hx (Hj & Hf & Hi & Hna) Hs. cbn [fst snd] in *.
+    apply stmt_evict_gen_inv in Hs.
+    destruct Hs as (tk & Ht & [(_ & _ & -> & ->) | (pn & _ & Hj' & He' & Ht' & Ho')]).
+    { unfold base_inv. cbn [fst snd]. auto. }
     unfold base_inv. cbn [fst snd]. repeat split.
     + congruence.
     + rewrite Ht', frame_upd_first; auto.
     + intros t Hin. rewrite Ho', evict_ids_app in Hin. apply in_app_or in Hin. destruct Hin as [Hin|Hin]; auto.
       cbn in Hin. destruct Hin as [<-|[]]. exact Hx.
-  - unfold base_inv. cbn [fst snd]. repeat split; auto. intros t [].
+    + intros t n gs Hin. rewrite Ho' in Hin. apply in_app_or in Hin. destruct Hin as [Hin|[Hin|[]]]; [|discriminate].
+      eapply Hna; eauto.
+  - unfold base_inv. cbn [fst snd]. split; [reflexivity|]. split; [reflexivity|]. split; [intros t [] | intros t n gs []].
 Qed.
 
 Lemma pipeline_step_base : forall s evl c1 o1 r c2 o2,
   base_inv s evl (c1, o1) -> stmt_pipeline c1 o1 r = Some (c2, o2) -> base_inv s evl (c2, o2).
 Proof.
-  intros s evl c1 o1 [[t n] gs] c2 o2 (Hj & Hf & Hi) Hs. cbn [fst snd] in *.
+  intros s evl c1 o1 [[t n] gs] c2 o2 (Hj & Hf & Hi & Hna) Hs. cbn [fst snd] in *.
   apply stmt_pipeline_inv in Hs. unfold base_inv. cbn [fst snd].
   destruct Hs as (tk & Ht & Hj' & [(Ht' & Ho' & _) | (prev & pg & Hu & Ht' & _)]).
-  - repeat split; [congruence | rewrite Ht', frame_upd_first; auto |].
-    intros x Hin. rewrite Ho', evict_ids_app in Hin. apply in_app_or in Hin. destruct Hin as [Hin|Hin]; auto. destruct Hin.
-  - repeat split; [congruence | rewrite Ht', frame_upd_first; auto |].
-    intros x Hin. apply unevict_first_props in Hu. destruct Hu as (E & _). rewrite E in Hin. auto.
+  - repeat split; [congruence | rewrite Ht', frame_upd_first; auto | |].
+    + intros x Hin. rewrite Ho', evict_ids_app in Hin. apply in_app_or in Hin. destruct Hin as [Hin|Hin]; auto. destruct Hin.
+    + intros t' n' gs' Hin. rewrite Ho' in Hin. apply in_app_or in Hin. destruct Hin as [Hin|[Hin|[]]]; [|discriminate].
+      eapply Hna; eauto.
+  - apply unevict_first_props in Hu. destruct Hu as (E & _ & _ & _ & _ & _ & H7).
+    repeat split; [congruence | rewrite Ht', frame_upd_first; auto | |].
+    + intros x Hin. rewrite E in Hin. auto.
+    + intros t' n' gs' Hin. apply H7 in Hin. eapply Hna; eauto.
 Qed.
 
 Lemma pipeline_all_base : forall s evl s1 ops1 sim s2 ops2,
@@ -747,6 +938,46 @@ Proof.
   eapply (fold_opt_inv _ _ _ (base_inv s evl)) in H; eauto.
   intros r [c1 o1] [c2 o2] _ Hb Hs. cbn [fst snd] in *. eapply pipeline_step_base; eauto.
 Qed.
+
+(** the statement of a scenario never holds an allocate operation (the simulation is pipeline-only) *)
+Lemma scenario_no_alloc : forall rep s evl s1 ops1 sim s2 ops2,
+  evict_all_gen rep s [] evl = Some (s1, ops1) -> pipeline_all s1 ops1 sim = Some (s2, ops2) -> no_alloc ops2.
+Proof.
+  intros rep s evl s1 ops1 sim s2 ops2 He Hp.
+  now pose proof (pipeline_all_base _ _ _ _ _ _ _ (evict_all_base _ _ _ _ _ He) Hp) as (_ & _ & _ & Hna).
+Qed.
+
+(** the commit without failures: one accepted call per valid operation, session as the statement left it *)
+Lemma run_scenario_old_inv : forall stale c env a s pre sc sim calls s',
+  run_scenario_gen stale c no_faults env a s pre sc sim = Committed calls s' ->
+  exists pj s1 ops1 ops2,
+    find_job (ss_jobs s) pre = Some pj
+    /\ forallb (fun t => mem_pos t (sc_victims sc)) (sc_chosen sc) = true
+    /\ filter_all env s a (sc_seen sc) pj (sc_victims sc) = V true
+    /\ evict_all_gen stale s [] (sc_evicted sc) = Some (s1, ops1)
+    /\ pipeline_all s1 ops1 sim = Some (s', ops2)
+    /\ validate env s' a pj sc = V true
+    /\ job_solved s s' pj = true
+    /\ calls = commit_ops a pre ops2.
+Proof.
+  intros stale c env a s pre sc sim calls s' H.
+  destruct (run_scenario_gen_inv _ _ _ _ _ _ _ _ _ _ _ H) as (pj & s1 & ops1 & s2 & ops2 & Hpj & Hg & Hfa & Hev & Hpi & Hval & Hsol & Hc).
+  rewrite (commit_run_no_faults c a pre ops2 0 0 s2 (scenario_no_alloc _ _ _ _ _ _ _ _ Hev Hpi)) in Hc.
+  inversion Hc; subst. exists pj, s1, ops1, ops2. repeat split; auto.
+Qed.
+
+Lemma run_scenario_inv : forall env a s pre sc sim calls s',
+  run_scenario env a s pre sc sim = Committed calls s' ->
+  exists pj s1 ops1 ops2,
+    find_job (ss_jobs s) pre = Some pj
+    /\ forallb (fun t => mem_pos t (sc_victims sc)) (sc_chosen sc) = true
+    /\ filter_all env s a (sc_seen sc) pj (sc_victims sc) = V true
+    /\ evict_all s [] (sc_evicted sc) = Some (s1, ops1)
+    /\ pipeline_all s1 ops1 sim = Some (s', ops2)
+    /\ validate env s' a pj sc = V true
+    /\ job_solved s s' pj = true
+    /\ calls = commit_ops a pre ops2.
+Proof. intros env a s pre sc sim calls s' H. exact (run_scenario_old_inv [] true _ _ _ _ _ _ _ _ H). Qed.
 
 Lemma dedup_pos_in : forall l x, In x (dedup_pos l) <-> In x l.
 Proof.
@@ -869,9 +1100,9 @@ Lemma victim_eligible_core : forall env a s pre sc sim calls s' t a' p',
 Proof.
   intros env a s pre sc sim calls s' t a' p' Hrun Hin.
   destruct (run_scenario_inv _ _ _ _ _ _ _ _ Hrun) as (pj & s1 & ops1 & ops2 & Hpj & Hg & Hfa & Hev & Hpi & Hval & Hsol & ->).
-  destruct (commit_ops_evict _ _ _ _ _ _ Hin) as (-> & -> & prev & pg & Hop).
+  destruct (commit_ops_evict _ _ _ _ _ _ Hin) as (-> & -> & prev & pg & pn & Hop).
   split; [reflexivity|]. split; [reflexivity|].
-  pose proof (pipeline_all_base _ _ _ _ _ _ _ (evict_all_base _ _ _ _ Hev) Hpi) as (Hjobs & Hframe & Hids).
+  pose proof (pipeline_all_base _ _ _ _ _ _ _ (evict_all_base _ _ _ _ _ Hev) Hpi) as (Hjobs & Hframe & Hids & _).
   cbn [fst snd] in *.
   assert (Htv : In t (sc_victims sc)) by (apply evicted_in_victims; auto; apply Hids; eapply in_evict_ids; eauto).
   destruct (filter_all_in _ _ _ _ _ _ Hfa _ Htv) as (j & Hj & Hfilt).
@@ -915,17 +1146,17 @@ Definition purpose_inv (s : sstate) (pre : positive) (evl : list positive) (c : 
   /\ (tasks_of_job (fst c) pre = tasks_of_job s pre
       \/ exists t n gs tk, In (SPipe t n gs) (snd c) /\ get_task (ss_tasks s) t = Some tk /\ vt_job tk = pre).
 
-Lemma evict_all_purpose : forall s pre evl s1 ops1,
+Lemma evict_all_purpose : forall rep s pre evl s1 ops1,
   (forall t tk, In t evl -> get_task (ss_tasks s) t = Some tk -> vt_job tk <> pre) ->
-  evict_all s [] evl = Some (s1, ops1) -> tasks_of_job s1 pre = tasks_of_job s pre.
+  evict_all_gen rep s [] evl = Some (s1, ops1) -> tasks_of_job s1 pre = tasks_of_job s pre.
 Proof.
-  intros s pre evl s1 ops1 Hvic H.
-  pose proof H as H0. unfold evict_all in H.
+  intros rep s pre evl s1 ops1 Hvic H.
+  pose proof H as H0. unfold evict_all_gen in H.
   eapply (fold_opt_inv _ _ _ (fun c => frame (ss_tasks (fst c)) = frame (ss_tasks s)
                                        /\ tasks_of_job (fst c) pre = tasks_of_job s pre)) in H.
   - tauto.
   - intros x [c1 o1] [c2 o2] Hx (Hf & Ht) Hs. cbn [fst snd] in *.
-    apply stmt_evict_inv in Hs. destruct Hs as (tk & Hg & _ & _ & Ht' & _).
+    apply stmt_evict_gen_inv in Hs. destruct Hs as (tk & Hg & [(_ & _ & -> & ->) | (pn & _ & _ & _ & Ht' & _)]); [auto|].
     destruct (get_task_frame _ _ _ _ Hf Hg) as (tks & Hgs & Hjs & _).
     split.
     + rewrite Ht', frame_upd_first; auto.
@@ -945,7 +1176,7 @@ Proof.
   assert (Hb2 : base_inv s evl (c2, o2)).
   { eapply pipeline_step_base; eauto. }
   split; [exact Hb2|]. cbn [fst snd].
-  destruct Hb as (Hj & Hf & Hi). cbn [fst snd] in *.
+  destruct Hb as (Hj & Hf & Hi & _). cbn [fst snd] in *.
   apply stmt_pipeline_inv in Hs.
   destruct Hs as (tk & Hg & _ & Hcase).
   destruct (get_task_frame _ _ _ _ Hf Hg) as (tks & Hgs & Hjs & _).
@@ -986,27 +1217,46 @@ Qed.
 Definition releasing_in (c : sstate) (t : positive) : Prop :=
   exists tk, get_task (ss_tasks c) t = Some tk /\ vt_status tk = Releasing.
 
-Lemma evict_all_props : forall evl s ops s1 ops1,
-  evict_all s ops evl = Some (s1, ops1) ->
-  ss_entries s1 = ss_entries s
-  /\ (forall t, nvalid t ops1 = (nvalid t ops + count_occ Pos.eq_dec evl t)%nat)
-  /\ (forall t, In t evl \/ releasing_in s t -> releasing_in s1 t).
+(** evicting when no pod is offered a second time through a stale copy (none is stale in
+    the code as it is): no pod gets two valid evict operations, a pod with a valid evict
+    operation is Releasing, node entries are untouched *)
+Definition once_inv (c : sstate * list sop) : Prop :=
+  forall t, (nvalid t (snd c) <= 1)%nat /\ (nvalid t (snd c) = 1%nat -> releasing_in (fst c) t).
+
+Lemma evict_all_props : forall stale evl s ops s1 ops1,
+  evict_all_gen stale s ops evl = Some (s1, ops1) -> once_inv (s, ops) ->
+  (forall t, In t stale -> (nvalid t ops + count_occ Pos.eq_dec evl t <= 1)%nat) ->
+  ss_entries s1 = ss_entries s /\ once_inv (s1, ops1).
 Proof.
-  unfold evict_all. induction evl as [|x r IH]; intros s ops s1 ops1 H; cbn [fold_opt] in H.
-  - inversion H; subst. repeat split; auto. intros t [[]|Hr]; auto.
-  - cbn [fst snd] in H. destruct (stmt_evict s ops x) as [[c o]|] eqn:Es; [|discriminate].
-    destruct (IH _ _ _ _ H) as (He & Hn & Hr).
-    apply stmt_evict_inv in Es. destruct Es as (tk & Hg & _ & He' & Ht' & Ho').
-    repeat split.
-    + congruence.
-    + intros t. rewrite Hn, Ho', nvalid_app. unfold nvalid at 2. cbn [filter is_valid_evict count_occ].
+  unfold evict_all_gen. intros stale. induction evl as [|x r IH]; intros s ops s1 ops1 H Hinv Hst; cbn [fold_opt] in H.
+  - inversion H; subst. auto.
+  - cbn [fst snd] in H. destruct (stmt_evict_gen stale s ops x) as [[c o]|] eqn:Es; [|discriminate].
+    apply stmt_evict_gen_inv in Es.
+    destruct Es as (tk & Hg & [(Hns & _ & -> & ->) | (pn & Hnr & _ & He' & Ht' & Ho')]).
+    { eapply IH; eauto. intros t Hin. specialize (Hst t Hin). cbn [count_occ] in Hst.
+      destruct (Pos.eq_dec x t); lia. }
+    assert (H0 : nvalid x ops = 0%nat).
+    { destruct (Hinv x) as [Hle Hrel]. cbn [fst snd] in Hle, Hrel.
+      destruct (nvalid x ops) as [|[|k]] eqn:En; [reflexivity | | lia].
+      destruct (in_dec Pos.eq_dec x stale) as [Hin|Hnin].
+      - specialize (Hst x Hin). cbn [count_occ] in Hst. destruct (Pos.eq_dec x x); [lia | congruence].
+      - destruct (Hrel eq_refl) as (tk' & Hg' & Hs'). rewrite Hg in Hg'. inversion Hg'; subst. exfalso. now apply Hnr. }
+    assert (Hinv' : once_inv (c, o)).
+    { intros t. cbn [fst snd]. destruct (Hinv t) as [Hle Hrel]. cbn [fst snd] in Hle, Hrel.
+      rewrite Ho', nvalid_app. unfold nvalid at 2 4. cbn [filter is_valid_evict].
       destruct (Pos.eq_dec x t) as [->|Hne].
-      * rewrite Pos.eqb_refl. cbn. lia.
-      * destruct (Pos.eqb x t) eqn:E; [apply Pos.eqb_eq in E; congruence|]. cbn. lia.
-    + intros t Hd. apply Hr. destruct (Pos.eq_dec x t) as [->|Hne].
-      * right. unfold releasing_in. rewrite Ht', get_task_upd_same, Hg by auto. cbn. eauto.
-      * destruct Hd as [[E|Hin]|(tk0 & Hg0 & Hs0)]; [congruence | now left | right].
-        unfold releasing_in. rewrite Ht', get_task_upd_other by auto. eauto.
+      - rewrite Pos.eqb_refl. cbn [List.length].
+        split; [lia|]. intros _. unfold releasing_in. rewrite Ht', get_task_upd_same, Hg by auto. cbn. eauto.
+      - destruct (Pos.eqb x t) eqn:E; [apply Pos.eqb_eq in E; congruence|]. cbn [List.length].
+        split; [lia|]. intros H1. assert (H1' : nvalid t ops = 1%nat) by lia.
+        destruct (Hrel H1') as (tk' & Hg' & Hs'). unfold releasing_in. rewrite Ht', get_task_upd_other by auto. eauto. }
+    assert (Hst' : forall t, In t stale -> (nvalid t o + count_occ Pos.eq_dec r t <= 1)%nat).
+    { intros t Hin. specialize (Hst t Hin). cbn [count_occ] in Hst.
+      rewrite Ho', nvalid_app. unfold nvalid at 2. cbn [filter is_valid_evict].
+      destruct (Pos.eq_dec x t) as [->|Hne].
+      - rewrite Pos.eqb_refl. cbn [List.length]. lia.
+      - destruct (Pos.eqb x t) eqn:E; [apply Pos.eqb_eq in E; congruence|]. cbn [List.length]. lia. }
+    destruct (IH _ _ _ _ H Hinv' Hst') as (He & Hi). split; [congruence | exact Hi].
 Qed.
 
 Lemma entry_of_set_other : forall es t' n gs t m, t' <> t ->
@@ -1064,32 +1314,32 @@ Proof.
       * apply unevict_first_props in Hu. destruct Hu as (_ & Hp & _). now apply Hp.
 Qed.
 
-Lemma nvalid_ge1 : forall t ops p g, In (SEvict t p g true) ops -> (1 <= nvalid t ops)%nat.
+Lemma nvalid_ge1 : forall t ops p g pn, In (SEvict t p g pn true) ops -> (1 <= nvalid t ops)%nat.
 Proof.
-  intros t ops p g H. unfold nvalid.
-  assert (Hin : In (SEvict t p g true) (filter (is_valid_evict t) ops)).
+  intros t ops p g pn H. unfold nvalid.
+  assert (Hin : In (SEvict t p g pn true) (filter (is_valid_evict t) ops)).
   { apply filter_In. split; auto. cbn. apply Pos.eqb_refl. }
   destruct (filter (is_valid_evict t) ops); [destruct Hin | cbn; lia].
 Qed.
 
 Lemma consolidation_moves_core : forall env s pre sc sim calls s' t a' p',
   run_scenario env AConsolidation s pre sc sim = Committed calls s' ->
-  NoDup (sc_evicted sc) ->
   In (VEvict t a' p') calls ->
   exists n gs, In (VPipe t n gs) calls /\ good_move s t n gs.
 Proof.
-  intros env s pre sc sim calls s' t a' p' Hrun Hnd Hin.
+  intros env s pre sc sim calls s' t a' p' Hrun Hin.
   destruct (run_scenario_inv _ _ _ _ _ _ _ _ Hrun) as (pj & s1 & ops1 & ops2 & Hpj & Hg & Hfa & Hev & Hpi & Hval & Hsol & ->).
-  destruct (commit_ops_evict _ _ _ _ _ _ Hin) as (_ & _ & prev & pg & Hop).
-  pose proof (pipeline_all_base _ _ _ _ _ _ _ (evict_all_base _ _ _ _ Hev) Hpi) as (_ & _ & Hids).
+  destruct (commit_ops_evict _ _ _ _ _ _ Hin) as (_ & _ & prev & pg & pn & Hop).
+  pose proof (pipeline_all_base _ _ _ _ _ _ _ (evict_all_base _ _ _ _ _ Hev) Hpi) as (_ & _ & Hids & _).
   cbn [fst snd] in *.
   assert (Htev : In t (sc_evicted sc)) by (apply Hids; eapply in_evict_ids; eauto).
-  destruct (evict_all_props _ _ _ _ _ Hev) as (He1 & Hn1 & Hr1).
+  assert (H0 : once_inv (s, [])).
+  { intros x. cbn [fst snd]. unfold nvalid. cbn. split; [lia | discriminate]. }
+  destruct (evict_all_props [] _ _ _ _ _ Hev H0 (fun x (Hx : In x []) => match Hx with end)) as (He1 & Hn1).
   assert (H1 : moves_inv s t (s1, ops1)).
-  { left. cbn [fst snd]. split; [|split].
-    - rewrite Hn1. unfold nvalid. cbn. apply NoDup_count_occ'; auto.
-    - apply Hr1. now left.
-    - intros n. now rewrite He1. }
+  { destruct (Hn1 t) as [Hle Hrel]. cbn [fst snd] in Hle, Hrel. unfold moves_inv. cbn [fst snd].
+    destruct (nvalid t ops1) as [|[|k]] eqn:En; [right; left; reflexivity | | lia].
+    left. split; [reflexivity|]. split; [auto|]. intros n. now rewrite He1. }
   assert (H2 : moves_inv s t (s', ops2)).
   { unfold pipeline_all in Hpi.
     eapply (fold_opt_inv _ _ _ (moves_inv s t)) in Hpi; eauto.
@@ -1099,7 +1349,7 @@ Proof.
     exfalso. cbn in Hval. injection Hval as Hval. unfold all_pods_reallocated in Hval. rewrite forallb_forall in Hval.
     pose proof (evicted_in_victims _ Hg _ Htev) as Hv.
     specialize (Hval _ (tasks_of_in _ _ _ _ Hv Htk)). rewrite Hst in Hval. discriminate.
-  - pose proof (nvalid_ge1 _ _ _ _ Hop). lia.
+  - pose proof (nvalid_ge1 _ _ _ _ _ Hop). lia.
   - exists n, gs. split; auto. now apply commit_ops_pipe.
 Qed.
 
@@ -1113,18 +1363,81 @@ Proof.
   destruct Hg as [Hnone | (egs & Hsome & Hneq)]; congruence.
 Qed.
 
-(** ** an action: every commit of any sequence of scenarios *)
-Lemma commit_keeps_jobs : forall env a s pre sc sim calls s',
-  run_scenario env a s pre sc sim = Committed calls s' -> ss_jobs s' = ss_jobs s.
+(** ** failures only refuse: under any oracle the commit issues the calls of the
+    commit without failures, in the same order, each eviction accepted or refused *)
+Definition as_accepted (c : vcall) : vcall :=
+  match c with
+  | VEvictFailed t a p => VEvict t a p
+  | VBindFailed t n gs => VBind t n gs
+  | c => c
+  end.
+
+Lemma commit_run_erase : forall f a pre ops ke kb s,
+  no_alloc ops -> map as_accepted (fst (commit_run true f a pre ke kb s ops)) = commit_ops a pre ops.
 Proof.
-  intros env a s pre sc sim calls s' Hrun.
-  destruct (run_scenario_inv _ _ _ _ _ _ _ _ Hrun) as (pj & s1 & ops1 & ops2 & _ & _ & _ & Hev & Hpi & _).
-  now pose proof (pipeline_all_base _ _ _ _ _ _ _ (evict_all_base _ _ _ _ Hev) Hpi) as (Hj & _).
+  intros f a pre. induction ops as [|o r IH]; intros ke kb s Hna; [reflexivity|].
+  pose proof (no_alloc_cons _ _ Hna) as Hr.
+  destruct o as [t0 p0 g0 pn0 [|] | t0 n0 gs0 | t0 n0 gs0]; cbn [commit_run commit_ops flat_map].
+  - destruct (f_evict f ke).
+    + specialize (IH (S ke) kb (unevict_state s t0 pn0) Hr).
+      destruct (commit_run true f a pre (S ke) kb (unevict_state s t0 pn0) r) as [cs s2]. cbn [fst map as_accepted app] in *.
+      now rewrite IH.
+    + specialize (IH (S ke) kb s Hr).
+      destruct (commit_run true f a pre (S ke) kb s r) as [cs s2]. cbn [fst map as_accepted app] in *. now rewrite IH.
+  - apply IH; auto.
+  - specialize (IH ke kb s Hr).
+    destruct (commit_run true f a pre ke kb s r) as [cs s2]. cbn [fst map as_accepted app] in *. now rewrite IH.
+  - exfalso. apply (Hna t0 n0 gs0). now left.
+Qed.
+
+Lemma faults_only_refuse : forall f env a s pre sc sim calls s',
+  run_scenario_f f env a s pre sc sim = Committed calls s' ->
+  exists s0, run_scenario env a s pre sc sim = Committed (map as_accepted calls) s0.
+Proof.
+  intros f env a s pre sc sim calls s' H.
+  destruct (run_scenario_gen_inv _ _ _ _ _ _ _ _ _ _ _ H) as (pj & s1 & ops1 & s2 & ops2 & Hpj & Hg & Hfa & Hev & Hpi & Hval & Hsol & Hc).
+  pose proof (scenario_no_alloc _ _ _ _ _ _ _ _ Hev Hpi) as Hna.
+  exists s2. unfold run_scenario, run_scenario_f, run_scenario_gen.
+  rewrite Hpj, Hg. cbn [negb]. rewrite Hfa, Hev, Hpi, Hval, Hsol.
+  rewrite (commit_run_no_faults true a pre ops2 0 0 s2 Hna).
+  pose proof (commit_run_erase f a pre ops2 0 0 s2 Hna) as He. rewrite Hc in He. cbn [fst] in He. now rewrite He.
+Qed.
+
+Lemma as_accepted_pipe : forall calls t n gs, In (VPipe t n gs) (map as_accepted calls) <-> In (VPipe t n gs) calls.
+Proof.
+  intros calls t n gs. rewrite in_map_iff. split.
+  - intros (x & Hx & Hin). destruct x; cbn in Hx; try discriminate. now rewrite <- Hx.
+  - intros Hin. exists (VPipe t n gs). auto.
+Qed.
+
+Lemma as_accepted_evict : forall calls x t a p,
+  evict_call_of x t a p -> In x calls -> In (VEvict t a p) (map as_accepted calls).
+Proof. intros calls x t a p [->| ->] Hin; apply in_map_iff; eexists; split; eauto; reflexivity. Qed.
+
+(** a commit under any oracle never issues a Bind: the preemptor's nomination is a TaskPipelined, which cannot fail *)
+Lemma scenario_never_binds : forall f env a s pre sc sim calls s' x,
+  run_scenario_f f env a s pre sc sim = Committed calls s' -> In x calls ->
+  match x with VBind _ _ _ | VBindFailed _ _ _ => False | _ => True end.
+Proof.
+  intros f env a s pre sc sim calls s' x H Hin.
+  destruct (run_scenario_gen_inv _ _ _ _ _ _ _ _ _ _ _ H) as (pj & s1 & ops1 & s2 & ops2 & _ & _ & _ & Hev & Hpi & _ & _ & Hc).
+  eapply (commit_run_no_bind true f a pre ops2 0 0 s2 x (scenario_no_alloc _ _ _ _ _ _ _ _ Hev Hpi)).
+  rewrite Hc. exact Hin.
+Qed.
+
+(** ** an action: every commit of any sequence of scenarios *)
+Lemma commit_keeps_jobs : forall f env a s pre sc sim calls s',
+  run_scenario_f f env a s pre sc sim = Committed calls s' -> ss_jobs s' = ss_jobs s.
+Proof.
+  intros f env a s pre sc sim calls s' Hrun.
+  destruct (run_scenario_gen_inv _ _ _ _ _ _ _ _ _ _ _ Hrun) as (pj & s1 & ops1 & s2 & ops2 & _ & _ & _ & Hev & Hpi & _ & _ & Hc).
+  pose proof (pipeline_all_base _ _ _ _ _ _ _ (evict_all_base _ _ _ _ _ Hev) Hpi) as (Hj & _).
+  pose proof (commit_run_frame true f a pre ops2 0 0 s2) as (Hj2 & _). rewrite Hc in Hj2. cbn [fst snd] in *. congruence.
 Qed.
 
 Definition commit_of (env : venv) (s : sstate) (c : step * list vcall) : Prop :=
   exists si sj, ss_jobs si = ss_jobs s
-    /\ run_scenario env (sp_action (fst c)) si (sp_preemptor (fst c)) (sp_scenario (fst c)) (sp_sim (fst c))
+    /\ run_scenario_f (sp_faults (fst c)) env (sp_action (fst c)) si (sp_preemptor (fst c)) (sp_scenario (fst c)) (sp_sim (fst c))
        = Committed (snd c) sj.
 
 Lemma run_steps_commits : forall env steps s cs sf,
@@ -1132,11 +1445,11 @@ Lemma run_steps_commits : forall env steps s cs sf,
 Proof.
   intros env. induction steps as [|st r IH]; intros s cs sf H; cbn in H.
   - inversion H; subst. constructor.
-  - destruct (run_scenario env (sp_action st) s (sp_preemptor st) (sp_scenario st) (sp_sim st)) as [calls s'| |] eqn:E.
+  - destruct (run_scenario_f (sp_faults st) env (sp_action st) s (sp_preemptor st) (sp_scenario st) (sp_sim st)) as [calls s'| |] eqn:E.
     + destruct (run_steps env s' r) as [[cs' sf']|] eqn:Er; [|discriminate]. inversion H; subst.
       constructor.
       * exists s, s'. split; auto.
-      * pose proof (commit_keeps_jobs _ _ _ _ _ _ _ _ E) as Hj.
+      * pose proof (commit_keeps_jobs _ _ _ _ _ _ _ _ _ E) as Hj.
         eapply Forall_impl; [|eapply IH; eauto].
         intros c (si & sj & Hji & Hr). exists si, sj. split; [congruence | exact Hr].
     + eauto.
@@ -1169,14 +1482,49 @@ Lemma ex_consolidation_inside :
                         (mkVJ 2 2 50 true (Some (-2400)) [(2%positive, 1)]) = true.
 Proof. split; vm_compute; reflexivity. Qed.
 
-(** the same pod evicted twice by one statement (recorded victim offered again):
-    placing it back on its node un-evicts only the first operation; the commit
-    evicts it and re-places it nowhere *)
+(** BEFORE bce7109 ([run_scenario_gen [2]]: pod 2 reaches Statement.Evict as a stale
+    copy): the same pod offered twice by one statement (recorded victim offered
+    again as a potential victim) gets two operations; placing the pod back on its
+    node un-evicts only the first; the commit evicts it and re-places it nowhere.
+    The code as it is records one operation and nothing is evicted. *)
 Lemma ex_double_evict :
-  exists s', run_scenario ex_env AConsolidation (ex_state 2400 50 2) 3 (mkSc [2%positive] [] [2%positive] 0 true)
+  (exists s', run_scenario_gen [2%positive] true no_faults ex_env AConsolidation (ex_state 2400 50 2) 3
+               (mkSc [2%positive] [] [2%positive] 0 true) [(3%positive, 2%positive, []); (2%positive, 2%positive, [])]
+   = Committed [VEvict 2 AConsolidation 3; VPipe 3 2 []] s')
+  /\ (exists s', run_scenario ex_env AConsolidation (ex_state 2400 50 2) 3 (mkSc [2%positive] [] [2%positive] 0 true)
                [(3%positive, 2%positive, []); (2%positive, 2%positive, [])]
-  = Committed [VEvict 2 AConsolidation 3; VPipe 3 2 []] s'.
+   = Committed [VPipe 3 2 []] s').
+Proof. split; eexists; vm_compute; reflexivity. Qed.
+
+(** two victims v, w for one preemptor; the second Cache.Evict call of the commit is refused *)
+Definition ex_second_evict_fails : faults := mkF (fun k => Nat.eqb k 1) (fun _ => false).
+Definition ex_gang_scenario : scenario := mkSc [] [1%positive; 2%positive] [1%positive; 2%positive] 0 true.
+
+(** the code as it is: v evicted, w refused (in the session w stays Releasing: commitEvict "un-evicts" it to
+    the status it has at commit time), p nominated all the same *)
+Lemma ex_refused_eviction :
+  run_scenario_f ex_second_evict_fails ex_env APreempt (ex_state 18720 75 2) 3 ex_gang_scenario [(3%positive, 1%positive, [])]
+  = Committed [VEvict 1 APreempt 3; VEvictFailed 2 APreempt 3; VPipe 3 1 []]
+              (mkSS (ss_jobs (ex_state 18720 75 2))
+                    [mkVT 1 1 1 Releasing (Some 1%positive) [] false; mkVT 2 2 2 Releasing (Some 2%positive) [] false;
+                     mkVT 3 3 3 Pipelined (Some 1%positive) [] false]
+                    [(1%positive, 1%positive, []); (2%positive, 2%positive, []); (3%positive, 1%positive, [])]).
+Proof. vm_compute. reflexivity. Qed.
+
+(** the variant that returns at the first refused eviction: v is evicted for p and p is not nominated *)
+Lemma ex_stop_at_refused_eviction :
+  exists s', run_scenario_gen [] false ex_second_evict_fails ex_env APreempt (ex_state 18720 75 2) 3 ex_gang_scenario
+               [(3%positive, 1%positive, [])]
+  = Committed [VEvict 1 APreempt 3; VEvictFailed 2 APreempt 3] s'.
 Proof. eexists. vm_compute. reflexivity. Qed.
+
+(** Commit on a statement that evicts and then ALLOCATES (no action builds one): a refused bind ends the
+    commit behind an accepted eviction - the nominations that follow are dropped *)
+Lemma ex_refused_bind :
+  fst (commit_run true (mkF (fun _ => false) (fun _ => true)) APreempt 3 0 0 (ex_state 18720 75 2)
+                  [SEvict 1 Running [] 1 true; SAlloc 3 1 []; SPipe 3 2 []])
+  = [VEvict 1 APreempt 3; VBindFailed 3 1 []].
+Proof. vm_compute. reflexivity. Qed.
 
 (** non-vacuity: preempt, reclaim and an elastic victim inside its min-runtime *)
 Lemma ex_preempt_commit :
@@ -1276,20 +1624,53 @@ Proof.
   destruct (Hm I Hins) as (Hel & _). vm_compute in Hel. discriminate.
 Qed.
 
-(** the same for every commit of any sequence of scenarios (the state [si] in which the statement was built has the cycle's jobs) *)
+(** under any failure oracle: an Evict call, accepted or refused, is an eviction of the same scenario's commit
+    without failures, and is eligible as above (live pods counted in the session [s0] that commit leaves) *)
+Lemma victim_eligible_faults : forall f env a s pre sc sim calls s' x t a' p',
+  run_scenario_f f env a s pre sc sim = Committed calls s' ->
+  evict_call_of x t a' p' -> In x calls ->
+  a' = a /\ p' = pre
+  /\ exists s0, run_scenario env a s pre sc sim = Committed (map as_accepted calls) s0
+       /\ victim_eligible_at (fun a => a <> AConsolidation) env a s s0 pre t.
+Proof.
+  intros f env a s pre sc sim calls s' x t a' p' Hr Hx Hin.
+  destruct (faults_only_refuse _ _ _ _ _ _ _ _ _ Hr) as (s0 & H0).
+  pose proof (as_accepted_evict _ _ _ _ _ Hx Hin) as Hev.
+  destruct (victim_eligible_core _ _ _ _ _ _ _ _ _ _ _ H0 Hev) as (-> & -> & Hel).
+  split; [reflexivity|]. split; [reflexivity|]. exists s0. auto.
+Qed.
+
+(** the same for every commit of any sequence of scenarios, whatever Cache calls fail (the state [si] in which the
+    statement was built has the cycle's jobs; [sj]: the session its commit leaves when no call fails) *)
 Lemma victim_eligible_cycle : forall env s steps cs sf,
   run_steps env s steps = Some (cs, sf) ->
   forall st calls, In (st, calls) cs ->
-  forall t a' p', In (VEvict t a' p') calls ->
+  forall x t a' p', evict_call_of x t a' p' -> In x calls ->
   a' = sp_action st /\ p' = sp_preemptor st
   /\ exists si sj, ss_jobs si = ss_jobs s
        /\ victim_eligible_at (fun a => a <> AConsolidation) env (sp_action st) si sj (sp_preemptor st) t.
 Proof.
-  intros env s steps cs sf Hrun st calls Hin t a' p' Hev.
+  intros env s steps cs sf Hrun st calls Hin x t a' p' Hx Hev.
   pose proof (run_steps_commits _ _ _ _ _ Hrun) as Hall. rewrite Forall_forall in Hall.
   destruct (Hall _ Hin) as (si & sj & Hj & Hr). cbn [fst snd] in Hr.
-  destruct (victim_eligible_core _ _ _ _ _ _ _ _ _ _ _ Hr Hev) as (-> & -> & Hel).
-  split; [reflexivity|]. split; [reflexivity|]. exists si, sj. auto.
+  destruct (victim_eligible_faults _ _ _ _ _ _ _ _ _ _ _ _ _ Hr Hx Hev) as (-> & -> & s0 & _ & Hel).
+  split; [reflexivity|]. split; [reflexivity|]. exists si, s0. auto.
+Qed.
+
+(** clause 2 under any failure oracle: every nomination of the commit without failures is issued - among
+    them one for a pod of the pending job - whichever evictions were refused *)
+Lemma eviction_has_purpose_faults : forall f env a s pre sc sim calls s',
+  run_scenario_f f env a s pre sc sim = Committed calls s' ->
+  (exists t n gs tk, In (VPipe t n gs) calls /\ get_task (ss_tasks s) t = Some tk /\ vt_job tk = pre)
+  /\ exists calls0 s0, run_scenario env a s pre sc sim = Committed calls0 s0
+        /\ forall t n gs, In (VPipe t n gs) calls0 <-> In (VPipe t n gs) calls.
+Proof.
+  intros f env a s pre sc sim calls s' Hr.
+  destruct (faults_only_refuse _ _ _ _ _ _ _ _ _ Hr) as (s0 & H0).
+  split.
+  - destruct (eviction_has_purpose_core _ _ _ _ _ _ _ _ H0) as (t & n & gs & tk & Hin & Htk & Hj).
+    exists t, n, gs, tk. split; [now apply as_accepted_pipe | auto].
+  - exists (map as_accepted calls), s0. split; [exact H0|]. intros t n gs. apply as_accepted_pipe.
 Qed.
 
 Lemma eviction_has_purpose_cycle : forall env s steps cs sf,
@@ -1301,33 +1682,58 @@ Proof.
   intros env s steps cs sf Hrun st calls Hin.
   pose proof (run_steps_commits _ _ _ _ _ Hrun) as Hall. rewrite Forall_forall in Hall.
   destruct (Hall _ Hin) as (si & sj & Hj & Hr). cbn [fst snd] in Hr.
-  exists si. split; auto. eapply eviction_has_purpose_core; eauto.
+  exists si. split; auto. eapply eviction_has_purpose_faults; eauto.
 Qed.
 
-Definition consolidation_moves_statement (restrict : scenario -> Prop) : Prop :=
-  forall env s pre sc sim calls s' t a' p',
-    run_scenario env AConsolidation s pre sc sim = Committed calls s' -> restrict sc ->
+(** the variant of Commit that returns at the first refused eviction breaks clause 2 *)
+Lemma commit_must_carry_on :
+  exists f env a s pre sc sim calls s' t,
+    run_scenario_gen [] false f env a s pre sc sim = Committed calls s'
+    /\ In (VEvict t a pre) calls /\ forall t' n gs, ~ In (VPipe t' n gs) calls.
+Proof.
+  destruct ex_stop_at_refused_eviction as (s' & H).
+  do 9 eexists. exists 1%positive. split; [exact H|]. split; [now left|].
+  intros t' n gs [E|[E|[]]]; discriminate.
+Qed.
+
+(** clause 3, for a given set of stale copies ([[]]: the code as it is) and every failure oracle *)
+Definition consolidation_moves_statement (stale : list positive) : Prop :=
+  forall f env s pre sc sim calls s' t a' p',
+    run_scenario_gen stale true f env AConsolidation s pre sc sim = Committed calls s' ->
     In (VEvict t a' p') calls ->
     exists n gs, In (VPipe t n gs) calls /\ good_move s t n gs.
 
-Lemma consolidation_moves_partial : consolidation_moves_statement (fun sc => NoDup (sc_evicted sc)).
-Proof. intros env s pre sc sim calls s' t a' p' Hr Hnd Hev. eapply consolidation_moves_core; eauto. Qed.
-
-Lemma consolidation_moves_refuted : ~ consolidation_moves_statement (fun _ => True).
+(** under any failure oracle: an ACCEPTED consolidation eviction is re-placed by the same commit *)
+Lemma consolidation_moves_faults : forall f env s pre sc sim calls s' t a' p',
+  run_scenario_f f env AConsolidation s pre sc sim = Committed calls s' ->
+  In (VEvict t a' p') calls ->
+  exists n gs, In (VPipe t n gs) calls /\ good_move s t n gs.
 Proof.
-  intros H. destruct ex_double_evict as (s' & Hrun).
-  destruct (H _ _ _ _ _ _ _ 2%positive AConsolidation 3%positive Hrun I (or_introl eq_refl)) as (n & gs & Hin & _).
+  intros f env s pre sc sim calls s' t a' p' Hr Hev.
+  destruct (faults_only_refuse _ _ _ _ _ _ _ _ _ Hr) as (s0 & H0).
+  assert (Hev0 : In (VEvict t a' p') (map as_accepted calls)) by (eapply as_accepted_evict; eauto; now left).
+  destruct (consolidation_moves_core _ _ _ _ _ _ _ _ _ _ H0 Hev0) as (n & gs & Hin & Hg).
+  exists n, gs. split; [now apply as_accepted_pipe | exact Hg].
+Qed.
+
+Lemma consolidation_moves : consolidation_moves_statement [].
+Proof. intros f env s pre sc sim calls s' t a' p' Hr Hev. eapply consolidation_moves_faults; eauto. Qed.
+
+Lemma consolidation_moves_before_repair : ~ (forall stale, consolidation_moves_statement stale).
+Proof.
+  intros H. destruct ex_double_evict as ((s' & Hrun) & _).
+  destruct (H [2%positive] no_faults _ _ _ _ _ _ _ 2%positive AConsolidation 3%positive Hrun (or_introl eq_refl)) as (n & gs & Hin & _).
   cbn in Hin. destruct Hin as [E|[E|[]]]; discriminate.
 Qed.
 
 Lemma consolidation_moves_cycle : forall env s steps cs sf,
   run_steps env s steps = Some (cs, sf) ->
-  forall st calls, In (st, calls) cs -> sp_action st = AConsolidation -> NoDup (sc_evicted (sp_scenario st)) ->
+  forall st calls, In (st, calls) cs -> sp_action st = AConsolidation ->
   forall t a' p', In (VEvict t a' p') calls ->
   exists si, ss_jobs si = ss_jobs s /\ exists n gs, In (VPipe t n gs) calls /\ good_move si t n gs.
 Proof.
-  intros env s steps cs sf Hrun st calls Hin Ha Hnd t a' p' Hev.
+  intros env s steps cs sf Hrun st calls Hin Ha t a' p' Hev.
   pose proof (run_steps_commits _ _ _ _ _ Hrun) as Hall. rewrite Forall_forall in Hall.
   destruct (Hall _ Hin) as (si & sj & Hj & Hr). cbn [fst snd] in Hr. rewrite Ha in Hr.
-  exists si. split; auto. eapply consolidation_moves_core; eauto.
+  exists si. split; auto. eapply consolidation_moves_faults; eauto.
 Qed.
